@@ -446,6 +446,14 @@ impl ConnectionPool {
                             }
                         }
 
+                        let connect_timeout = match user.connect_timeout {
+                            Some(connect_timeout) => connect_timeout,
+                            None => match pool_config.connect_timeout {
+                                Some(connect_timeout) => connect_timeout,
+                                None => config.general.connect_timeout,
+                            },
+                        };
+
                         let manager = ServerPool::new(
                             address.clone(),
                             user.clone(),
@@ -459,15 +467,8 @@ impl ConnectionPool {
                             pool_config.cleanup_server_connections,
                             pool_config.log_client_parameter_status_changes,
                             pool_config.prepared_statements_cache_size,
+                            connect_timeout,
                         );
-
-                        let connect_timeout = match user.connect_timeout {
-                            Some(connect_timeout) => connect_timeout,
-                            None => match pool_config.connect_timeout {
-                                Some(connect_timeout) => connect_timeout,
-                                None => config.general.connect_timeout,
-                            },
-                        };
 
                         let idle_timeout = match user.idle_timeout {
                             Some(idle_timeout) => idle_timeout,
@@ -1147,6 +1148,9 @@ pub struct ServerPool {
 
     /// Prepared statement cache size
     prepared_statement_cache_size: usize,
+
+    /// How long a connection attempt may take, TCP connect to ReadyForQuery (ms).
+    connect_timeout: u64,
 }
 
 impl ServerPool {
@@ -1161,6 +1165,7 @@ impl ServerPool {
         cleanup_connections: bool,
         log_client_parameter_status_changes: bool,
         prepared_statement_cache_size: usize,
+        connect_timeout: u64,
     ) -> ServerPool {
         ServerPool {
             address,
@@ -1172,6 +1177,7 @@ impl ServerPool {
             cleanup_connections,
             log_client_parameter_status_changes,
             prepared_statement_cache_size,
+            connect_timeout,
         }
     }
 }
@@ -1192,8 +1198,9 @@ impl ManageConnection for ServerPool {
 
         stats.register(stats.clone());
 
-        // Connect to the PostgreSQL server.
-        match Server::startup(
+        // Connect to the PostgreSQL server. The attempt holds a slot of the pool until it ends:
+        // a server that accepts the connection and then says nothing must not keep it for ever.
+        let startup = Server::startup(
             &self.address,
             &self.user,
             &self.database,
@@ -1203,9 +1210,19 @@ impl ManageConnection for ServerPool {
             self.cleanup_connections,
             self.log_client_parameter_status_changes,
             self.prepared_statement_cache_size,
+        );
+
+        match tokio::time::timeout(
+            std::time::Duration::from_millis(self.connect_timeout),
+            startup,
         )
         .await
-        {
+        .unwrap_or_else(|_| {
+            Err(Error::SocketError(format!(
+                "server {:?} did not complete the startup within {} ms",
+                self.address, self.connect_timeout
+            )))
+        }) {
             Ok(mut conn) => {
                 if let Some(ref plugins) = self.plugins {
                     if let Some(ref prewarmer) = plugins.prewarmer {
